@@ -2,6 +2,7 @@
    test-set file names (TestFeas.v).  [C10, generator half] *)
 From Coq Require Import ZArith List Bool Lia PeanoNat String Ascii Ring.
 From VQ Require Import Base LinAlg Penalty Penalty_facts Export Export_facts TestFeas.
+From VQ Require Qubo.
 Import ListNotations.
 Local Open Scope string_scope.
 Open Scope Z_scope.
@@ -180,7 +181,7 @@ Proof.
   unfold violated_products. rewrite <- sumZ_filter. apply sumZ_map_ext. intros e _.
   unfold prod_violated.
   destruct (binl_nth x (e_row e) Hb) as [E1|E1], (binl_nth x (e_col e) Hb) as [E2|E2];
-    rewrite E1, E2; cbn [Z.eqb andb]; lia.
+    rewrite E1, E2; cbn; lia.
 Qed.
 
 Lemma sumZ_nonneg_zero_iff {A} (w : A -> Z) l :
@@ -260,7 +261,7 @@ Proof.
   - cbn [positions map] in Hnd. inversion Hnd as [|? ? Hnotin Hnd']; subst.
     inversion Hnz as [|? ? Hv Hnz']; subst. inversion Hin as [|? ? [Hr Hc] Hin']; subst.
     specialize (IH Hnd' Hnz' Hin').
-    unfold dense_nonzeros in *. cbn [nnz List.length] in *.
+    unfold dense_nonzeros, nnz in *. cbn [List.length]. rewrite Nat2Z.inj_succ.
     rewrite (sumZn_ext n _ (fun i => sumZn n (fun j => if coo_dense Q i j =? 0 then 0 else 1)
                                    + sumZn n (fun j => if Nat.eqb (e_row e) i && Nat.eqb (e_col e) j then 1 else 0))).
     + rewrite sumZn_add, <- IH, (sum2_delta n _ _ (fun _ _ => 1) Hr Hc). lia.
@@ -545,29 +546,55 @@ Proof.
   rewrite coo_dense_cons. destruct (Nat.eqb (e_row e) i && Nat.eqb (e_col e) j); lia.
 Qed.
 
-(* x a 0-1 vector at which the feasibility-mode QUBO (default penalty) of the constraint data
-   (A, b, Q, 0) has value 0 -- the postcondition C09 proves for the stored solution of make_feasible --:
-   convenience() on the files written from x and the data reports no violated row and vio_q = 0 *)
-Theorem convenience_of_zero_energy {npz : Type} (save : cdata -> npz) (load : npz -> cdata) :
+(* x a 0-1 vector satisfying the constraints Af x = bf, x'Rx = 0, where Af, bf, R are (on their blocks)
+   the dense meanings of the saved A, b and of the stored Q: convenience() on the files written from x and
+   the data (A, b, Q, 0) reports no violated row and vio_q = 0 *)
+Theorem convenience_of_feasible {npz : Type} (save : cdata -> npz) (load : npz -> cdata) :
   (forall d, load (save d) = d) ->
-  forall x A sp b Q (c : vec Z) (Qo : mat Z) S,
+  forall x A sp b Q (Af : mat Z) (bf : vec Z) (R : mat Z),
     let n := List.length x in
     let m := List.length b in
     let d := mkCdata A sp b Q 0 in
-    binl x -> Forall (fun e => 0 <= e_val e) Q -> loadable n d ->
-    Zqubo_value n (Zget_qubo m true (Zchoose_rho true S None) (Zmat_of A, Zvec_of b, coo_dense Q) (c, Qo)) (Zvec_of x) = 0 ->
+    binl x -> loadable n d ->
+    (forall k j, (k < m)%nat -> (j < n)%nat -> Af k j = Zmat_of A k j) ->
+    (forall k, (k < m)%nat -> bf k = Zvec_of b k) ->
+    (forall i j, (i < n)%nat -> (j < n)%nat -> R i j = coo_dense Q i j) ->
+    Zfeasible m n Af bf R (Zvec_of x) ->
     convenience load (save d) (sol_bytes x) = Ok (repeat false m, 0, nnz Q).
 Proof.
-  intros Hls x A sp b Q c Qo S n m d Hb Hq Hl Hval.
+  intros Hls x A sp b Q Af bf R n m d Hb Hl HA Hbf HRQ [H1 H2].
   rewrite (convenience_roundtrip save load Hls x d (binl_small x Hb) Hl).
-  assert (HR : R_nonneg n (coo_dense Q)) by (intros i j _ _; apply coo_dense_nonneg; exact Hq).
-  rewrite (feas_value_is_penalty n m _ _ _ c Qo S _ (binl_Zbinary x Hb)) in Hval.
-  apply (penalty_zero_iff m n _ _ _ _ HR (binl_Zbinary x Hb)) in Hval. destruct Hval as [H1 H2].
-  cbn [cA cb cQ cr d]. unfold test_feasibility, scale_measures. f_equal; [f_equal|].
-  - apply nth_ext with (d := false) (d' := false); [rewrite vio_l_length, repeat_length; reflexivity|].
+  cbn [cA cb cQ cr d]. unfold test_feasibility, scale_measures.
+  assert (E1 : vio_l A b x = repeat false m).
+  { apply nth_ext with (d := false) (d' := false); [rewrite vio_l_length, repeat_length; reflexivity|].
     intros k Hk. rewrite vio_l_length in Hk. rewrite (vio_l_nth A b x k Hk), nth_repeat.
-    apply lin_violated_false_iff. apply H1. exact Hk.
-  - rewrite vio_q_qf. fold n. unfold Zqf in H2. unfold Zqf. rewrite H2. reflexivity.
+    apply lin_violated_false_iff. rewrite <- (Hbf k Hk), <- (H1 k Hk).
+    unfold Zmv, mv. apply sumZn_ext. intros j Hj. rewrite (HA k j Hk Hj). reflexivity. }
+  assert (E2 : vio_q Q 0 x = 0).
+  { rewrite vio_q_qf. fold n. rewrite <- (Zqf_ext n R (coo_dense Q) _ HRQ), H2. reflexivity. }
+  rewrite E1, E2. reflexivity.
+Qed.
+
+(* the same from the value of the feasibility-mode QUBO (default penalty) at x being 0 -- the
+   postcondition C09 proves for the stored solution of make_feasible -- when R >= 0 entrywise (C03) *)
+Theorem convenience_of_zero_energy {npz : Type} (save : cdata -> npz) (load : npz -> cdata) :
+  (forall d, load (save d) = d) ->
+  forall x A sp b Q (Af : mat Z) (bf : vec Z) (R : mat Z) (c : vec Z) (Qo : mat Z) S,
+    let n := List.length x in
+    let m := List.length b in
+    let d := mkCdata A sp b Q 0 in
+    binl x -> loadable n d ->
+    (forall k j, (k < m)%nat -> (j < n)%nat -> Af k j = Zmat_of A k j) ->
+    (forall k, (k < m)%nat -> bf k = Zvec_of b k) ->
+    (forall i j, (i < n)%nat -> (j < n)%nat -> R i j = coo_dense Q i j) ->
+    (forall i j, (i < n)%nat -> (j < n)%nat -> 0 <= R i j) ->
+    Zqubo_value n (Zget_qubo m true (Zchoose_rho true S None) (Af, bf, R) (c, Qo)) (Zvec_of x) = 0 ->
+    convenience load (save d) (sol_bytes x) = Ok (repeat false m, 0, nnz Q).
+Proof.
+  intros Hls x A sp b Q Af bf R c Qo S n m d Hb Hl HA Hbf HRQ HR Hval.
+  apply (convenience_of_feasible save load Hls x A sp b Q Af bf R Hb Hl HA Hbf HRQ).
+  rewrite (feas_value_is_penalty n m _ _ _ c Qo S _ (binl_Zbinary x Hb)) in Hval.
+  apply (penalty_zero_iff m n _ _ _ _ HR (binl_Zbinary x Hb)). exact Hval.
 Qed.
 
 (* ====================================================================================== *)
@@ -575,7 +602,7 @@ Qed.
 (* ====================================================================================== *)
 Lemma split_on_aux_word c a : forall cur s,
   sall (not_char c) a = true ->
-  split_on_aux c cur (a ++ String c s) = ((cur ++ a) :: split_on_aux c "" s)%list.
+  split_on_aux c cur (a ++ String c s) = ((cur ++ a)%string :: split_on_aux c "" s)%list.
 Proof.
   induction a as [|x a IH]; intros cur s H.
   - cbn [append split_on_aux]. rewrite Ascii.eqb_refl, sapp_nil_r. reflexivity.
@@ -647,8 +674,7 @@ Proof. repeat split; reflexivity. Qed.
 
 (* ---------- C01's s_to_x on the spins of a 0-1 vector (Qc instance, where 1/2 exists) ---------- *)
 From Coq Require Import QArith Qcanon.
-From VQ Require Qubo.
 Theorem s_to_x_is_s2x_Qc (s : Z) :
-  s = 1 \/ s = -1 ->
-  Qubo.s2x_Qc (fun _ => qcZ s) O = qcZ ((1 - s) / 2).
+  (s = 1 \/ s = -1)%Z ->
+  Qubo.s2x_Qc (fun _ => qcZ s) O = qcZ ((1 - s) / 2)%Z.
 Proof. intros [->| ->]; apply Qc_is_canon; reflexivity. Qed.
